@@ -27,6 +27,9 @@ CHECKS = {
  "C20": dict(text="Coq theorems (Props/C20.v): the event list of the visit_with functions equals the pre-order of the file's tree (file, module, definitions in source order, containers before contents, each type right after its owner followed by its nested element/key/value/success/failure types to any depth); filtering the entities gives exactly the declared entities once each in source order; unpatched references are not descended. Tied to the real Visitor by a recording visitor on generated multi-file programs, the model walking the AST as the public accessors present it.",
              note="Trusted: Coq kernel, extraction, harness (AST dump + recording visitor). Interpretation recorded: nested references of an alias of an anonymous type are presented from every user.",
              tech="Coq proof (visit = pre-order of the tree, nested induction) + recording-visitor correspondence", ref="DESIGN.md §7 C20"),
+ "C04": dict(text="Coq model of the parse-time checks, the redefinition pass and every validator of slicec/src/validators (tags, compact types, enums and their bounds regenerated from primitive.rs, dictionary keys through compact structs, stream placement, inherited operations, aliases of optionals) with its gating, and a declarative rule catalogue; theorems relate each rule's check to its declarative statement. Tied to the real compiler by bounded-exhaustive small-scope families and generated programs with injected violations at boundary values, comparing the set of error codes.",
+             note="Trusted: Coq kernel, extraction, harness, the generator's resolution of named references. Attribute rules and literal syntax are not in the Coq rule model yet.",
+             tech="Coq proof (per-rule check <-> declarative rule) + regenerated bounds + injected-violation correspondence", ref="DESIGN.md §7 C04"),
 }
 NOT_APPLICABLE = {}
 def main():
